@@ -7,9 +7,18 @@ KANI = [dict(mode='ws:gmsol-store', harness=h, timeout=1500, mem_gb=10, fn='Mark
     dict(mode='ws:gmsol-store', harness='c16_config_flags_write_read_frame', timeout=600, fn='MarketConfig::flag / set_flag'),
     dict(mode='ws:gmsol-store', harness='c16_market_flags_write_read_frame', timeout=600, fn='Market::flag / set_flag and named accessors'),
     dict(mode='ws:gmsol-store', harness='c16_market_wrappers_delegate', timeout=900, fn='Market::get_config_by_key(_mut)'),
+    dict(mode='ws:gmsol-store', harness='c16_model_params_swap_position_fees', timeout=900, fn='impl SwapMarket/PerpMarket/PositionImpactMarket for Market (parameter accessors)'),
+    dict(mode='ws:gmsol-store', harness='c16_model_params_borrowing_funding', timeout=900, fn='impl BorrowingFeeMarket/PerpMarket for Market (parameter accessors)'),
+    dict(mode='ws:gmsol-store', harness='c16_model_params_limits', timeout=900, fn='impl BaseMarket for Market (pnl factors, pool/oi limits, reserve factors)'),
+    dict(mode='ws:gmsol-store', harness='c16_model_params_closed_market_switch', timeout=900, fn='MarketConfig closed-market parameter switch'),
 ]
 ASSUMPTIONS = []
-UNVERIFIED = []
+UNVERIFIED = [
+    'model accessor of the 6 keys Swap/OrderFeeFactorFor{Positive,Negative}Impact and LiquidationFee{Factor,ReceiverFactor}: FeeParams / LiquidationFeeParams expose no getter for these fields (only computed fees); covered indirectly by the frame proof on MarketConfig::get/get_mut',
+    'MinTokensForFirstDeposit / MinCollateralFactorForLiquidation model accessors: the latter is covered by the closed-market switch harness; the former has no model accessor in model.rs',
+    'Store::get_amount/get_factor/get_address(_mut) keys: not yet under contract here',
+    'SDK side (crates/programs): see C40',
+]
 MANIFEST = dict(engine='kani',
     technique='Kani/CBMC: write-one-key/read-every-key with frame on an arbitrary (all words symbolic) MarketConfig, all 66 keys by concrete unrolled loops; flags bit-exact; discriminant guard',
     text='Exhaustive over keys, symbolic over values and over the whole background config: writing v through key k is read back through k, every other key reads its old value, at most one storage word changes and never the flag word; each key owns its own slot; config flags and market flags likewise (bit-exact); key discriminants beyond the table are rejected.',
